@@ -132,10 +132,15 @@ class Runner:
         for pid, code in list(corpus) + sorted(gen.items()):
             if rs.chance(frac):
                 cands = workload.siblings(pid, code)
+                norm = [c for c in cands if c[0].endswith("#norm")]
+                cands = [c for c in cands if not c[0].endswith("#norm")]
                 if cands:
-                    spid, scode = rs.choice(cands)
-                    sib[spid] = scode
-                    fam_of[spid] = fam_of.get(pid) or ["snippet:" + pid.split("::")[0]]
+                    picked = [rs.choice(cands)]
+                    if norm and rs.chance(0.5):
+                        picked.append(norm[0])
+                    for spid, scode in picked:
+                        sib[spid] = scode
+                        fam_of[spid] = fam_of.get(pid) or ["snippet:" + pid.split("::")[0]]
         gen.update(sib)
         self.stats["programs_siblings"] = len(sib)
         # programs that would talk to each other through CPython's typing alias cache are not
